@@ -134,7 +134,7 @@ def history_check(r, sh, kw):
     for step in range(r.randint(3, 8)):
         i = r.choice(order)
         d, text, src, root = docs[i]
-        act = r.choice(["parse", "resolve", "resolve", "drop", "gc", "move", "move"])
+        act = r.choice(["parse", "resolve", "resolve", "drop", "gc", "move", "move", "edit", "edit"])
         if act == "parse" or src is None:
             try:
                 src = nima.parse(text)
@@ -188,6 +188,33 @@ def history_check(r, sh, kw):
             docs[j][2] = docs[j][3] = None
             docs[i][2] = docs[i][3] = None
             src = root = None
+        elif act == "edit" and root is not None and not d.applied and d.wrappers and all(w.kind == "let" for w in d.wrappers) and all(b.kind in ("int", "ref", "set") for b in d.wrappers[-1].bindings):
+            # resolve everything (contexts get attached), then remove the innermost let layer binding by binding through
+            # the CLI helper on the same object: afterwards names resolve as in the document without that layer
+            import copy as _copy
+
+            res0 = S.Resolver(d)
+            for keys, b, chain in res0.probes():
+                resolve_probe(root, keys)
+            try:
+                for b in list(d.wrappers[-1].bindings):
+                    nima.remove_value(src, "@" + b.name)
+            except Exception:  # noqa: BLE001 - refusals are not this property's business
+                docs[i][2] = docs[i][3] = None
+                src = root = None
+                continue
+            d2 = _copy.deepcopy(d)
+            d2.wrappers = d2.wrappers[:-1]
+            docs[i][0], docs[i][1] = d2, src.rebuild()
+            res2 = S.Resolver(d2)
+            lo, hi = (i + 1) * 100000, (i + 2) * 100000
+            for keys, b, chain in res2.probes():
+                got = resolve_probe(src, keys)
+                exp = res2.expected(b, chain)
+                if got[0] == "value" and exp[0] == "value" and got[1] != exp[1]:
+                    fails.append(("wrong-binding-after-layer-removed|history", {"doc": docs[i][1][:300], "keys": list(keys), "got": got[1], "expected": exp[1]}))
+                elif got[0] in ("value", "value-other") and exp[0] in ("unbound", "cycle"):
+                    fails.append((f"resolved-{exp[0]}-name-after-layer-removed|history", {"doc": docs[i][1][:300], "keys": list(keys), "got": list(got)}))
         elif act == "drop":
             docs[i][2] = docs[i][3] = None
             src = root = None
